@@ -738,34 +738,74 @@ Proof.
   - rewrite zsum_app. cbn. lia.
 Qed.
 
-Theorem width_irrelevant_gcxs_join_proof t ptrs :
-  std t -> Forall ptr_ok ptrs -> zsum (map snd ptrs) < 2 ^ 64 ->
-  rmap tv (m_gcxs_join (DInt t) ptrs) = rmap tv (m_gcxs_join DInf ptrs).
+Lemma add_all_inf_len : forall offs seg, exists l, add_all (mkT DInf seg) offs = Ok (mkT DInf l) /\ length l = length seg.
+Proof.
+  induction offs as [|o r IH]; intros seg; [exists seg; split; reflexivity|].
+  cbn [add_all]. unfold s_gcxs_concat_add, iarr_py, arr_py. cbn [tdt tv fits bind].
+  destruct (IH (map (fun c => wr DInf (c + o)) seg)) as [l [E L]]. exists l. split; [exact E|].
+  rewrite L. apply map_length.
+Qed.
+
+Lemma join_tail_inf_len : forall segs prev, exists l,
+  join_tail DInf prev segs = Ok l /\
+  Z.of_nat (length l) = zsum (map (fun p => Z.of_nat (length (tl (fst p)))) segs).
+Proof.
+  induction segs as [|[p nz] r IH]; intros prev; [exists []; split; reflexivity|].
+  cbn [join_tail].
+  destruct (add_all_inf_len prev (map (wr DInf) (tl p))) as [l1 [E1 L1]]. rewrite E1. cbn [bind tv].
+  destruct (IH (prev ++ [nz])) as [l2 [E2 L2]]. rewrite E2. cbn [bind].
+  exists (l1 ++ l2). split; [reflexivity|].
+  rewrite app_length, Nat2Z.inj_add, L1, map_length, L2. cbn [map fst zsum fold_right]. reflexivity.
+Qed.
+
+(* the join in the type t: which dtype comes out, that it holds max(total nnz, joined row count),
+   and that the spliced index pointer is the reference one *)
+Lemma gcxs_join_shape t ptrs :
+  std t -> Forall ptr_ok ptrs ->
+  s_gcxs_join_needed (zsum (map snd ptrs)) (joined_len ptrs) < 2 ^ 64 ->
+  exists t' vals,
+    m_gcxs_join (DInt t) ptrs = Ok (mkT (DInt t') vals) /\ std t' /\
+    fits (DInt t') (s_gcxs_join_needed (zsum (map snd ptrs)) (joined_len ptrs)) = true /\
+    m_gcxs_join DInf ptrs = Ok (mkT DInf vals) /\ Z.of_nat (length vals) = joined_len ptrs.
 Proof.
   intros St Hok Hlt. unfold m_gcxs_join.
   set (total := zsum (map snd ptrs)) in *.
+  set (needed := s_gcxs_join_needed total (joined_len ptrs)) in *.
   assert (Hnn : 0 <= total).
   { apply zsum_nonneg. rewrite Forall_map. eapply Forall_impl; [|exact Hok]. intros [a b] [H1 _]. exact H1. }
-  assert (D : exists t', gcxs_join_dtype (DInt t) total = Ok (DInt t') /\ std t' /\ fits (DInt t') total = true).
-  { unfold gcxs_join_dtype. destruct (can_store (DInt t) total) eqn:E; cbn [negb]; [exists t; auto|].
-    destruct (ext_min_scalar_type_nonneg total ltac:(lia)) as [t' [E' [S' F']]].
+  assert (Hge : total <= needed) by (unfold needed, s_gcxs_join_needed; lia).
+  assert (D : exists t', gcxs_join_dtype (DInt t) needed = Ok (DInt t') /\ std t' /\ fits (DInt t') needed = true).
+  { unfold gcxs_join_dtype. destruct (can_store (DInt t) needed) eqn:E; cbn [negb]; [exists t; auto|].
+    destruct (ext_min_scalar_type_nonneg needed ltac:(lia)) as [t' [E' [S' F']]].
     unfold g_gcxs_concat_upcast. rewrite E'. cbn [bind dec_dty1 dec_dty].
     rewrite pyv_dty_roundtrip by (apply std_pos, S'). exists t'. auto. }
   destruct D as [t' [E [S' F']]]. rewrite E. cbn [bind].
   unfold gcxs_join_dtype. rewrite can_store_inf. cbn [negb bind].
-  destruct ptrs as [|[p0 n0] r]; [reflexivity|].
-  inversion Hok as [|? ? [Hn0 Hp0] Hr]; subst. cbn [fst snd] in *.
-  unfold total in *. cbn [map zsum fold_right snd] in F', Hlt, Hnn. fold (zsum (map snd r)) in F', Hlt, Hnn.
   pose proof (std_pos t' S') as Hb.
+  assert (Ft : fits (DInt t') total = true) by (apply (fits_le t' needed); [exact Hb|exact F'|lia]).
+  destruct ptrs as [|[p0 n0] r]; [exists t', []; repeat split; auto|].
+  inversion Hok as [|? ? [Hn0 Hp0] Hr]; subst. cbn [fst snd] in *.
+  unfold total in Ft, Hnn. cbn [map zsum fold_right snd] in Ft, Hnn. fold (zsum (map snd r)) in Ft, Hnn.
   assert (0 <= zsum (map snd r)).
   { apply zsum_nonneg. rewrite Forall_map. eapply Forall_impl; [|exact Hr]. intros [a b] [H1 _]. exact H1. }
-  rewrite (join_tail_inf t' (n0 + zsum (map snd r)) r [n0] Hb F'); auto.
+  rewrite (join_tail_inf t' (n0 + zsum (map snd r)) r [n0] Hb Ft); auto.
   2:{ cbn. lia. }
   assert (W : map (wr (DInt t')) p0 = p0).
   { apply map_wr_id; [exact Hb|]. eapply Forall_impl; [|exact Hp0]. cbn beta. intros v Hv.
-    apply (fits_le t' (n0 + zsum (map snd r))); [exact Hb|exact F'|lia]. }
+    apply (fits_le t' (n0 + zsum (map snd r))); [exact Hb|exact Ft|lia]. }
   rewrite W. replace (map (wr DInf) p0) with p0 by (clear; induction p0; cbn; congruence).
-  destruct (join_tail DInf [n0] r); reflexivity.
+  destruct (join_tail_inf_len r [n0]) as [l [El Ll]]. rewrite El. cbn [bind].
+  exists t', (p0 ++ l). repeat split; auto.
+  rewrite app_length, Nat2Z.inj_add, Ll. reflexivity.
+Qed.
+
+Theorem width_irrelevant_gcxs_join_proof t ptrs :
+  std t -> Forall ptr_ok ptrs ->
+  s_gcxs_join_needed (zsum (map snd ptrs)) (joined_len ptrs) < 2 ^ 64 ->
+  rmap tv (m_gcxs_join (DInt t) ptrs) = rmap tv (m_gcxs_join DInf ptrs).
+Proof.
+  intros St Hok Hlt. destruct (gcxs_join_shape t ptrs St Hok Hlt) as [t' [vals [E1 [_ [_ [E2 _]]]]]].
+  rewrite E1, E2. reflexivity.
 Qed.
 
 Example width_irrelevant_gcxs_join_nonvacuous :
@@ -777,7 +817,10 @@ Proof.
 Qed.
 
 (* ------------------------------------------------------------------ uncompress_dimension: row numbers in
-   indptr's dtype.  New finding: after a GCXS join the number of rows may exceed that dtype. *)
+   indptr's dtype.  The kernel itself does not check that the row count fits that dtype; since 36b3bc9
+   the joins guarantee it (gcxs_join_uncompress below), _from_coo / _transpose choose a dtype holding
+   the compressed shape; a user-supplied indptr, and GCXS fancy indexing with repeated rows, can
+   still break the hypothesis. *)
 Lemma rows_of_range : forall ptr i,
   Forall (fun v => i <= v < i + Z.of_nat (length ptr) - 1) (rows_of i ptr).
 Proof.
@@ -805,6 +848,29 @@ Proof.
   apply map_wr_id; [exact Hb|]. eapply Forall_impl; [|apply rows_of_range]. cbn beta. intros v Hv.
   destruct indptr as [|a r]; [cbn in Hv; lia|].
   apply (fits_le t (Z.of_nat (length (a :: r)) - 1)); [exact Hb|exact Hc|lia].
+Qed.
+
+(* after a join the row numbers always fit: full statement *)
+Theorem gcxs_join_uncompress_proof t ptrs a :
+  std t -> Forall ptr_ok ptrs ->
+  s_gcxs_join_needed (zsum (map snd ptrs)) (joined_len ptrs) < 2 ^ 64 ->
+  m_gcxs_join (DInt t) ptrs = Ok a ->
+  tv (m_uncompress (tdt a) (tv a)) = tv (m_uncompress DInf (tv a)).
+Proof.
+  intros St Hok Hlt Ha.
+  destruct (gcxs_join_shape t ptrs St Hok Hlt) as [t' [vals [E1 [S' [F' [_ L]]]]]].
+  rewrite E1 in Ha. injection Ha as <-. cbn [tdt tv].
+  apply width_irrelevant_uncompress_partial_proof; [exact S'|].
+  unfold uncompress_clause. rewrite L.
+  pose proof (std_pos t' S') as Hb.
+  destruct (Z.le_gt_cases 0 (joined_len ptrs - 1)).
+  - apply (fits_le t' (s_gcxs_join_needed (zsum (map snd ptrs)) (joined_len ptrs))); [exact Hb|exact F'|].
+    unfold s_gcxs_join_needed. lia.
+  - assert (joined_len ptrs = 0) by lia. rewrite H0. cbn.
+    destruct vals; [|cbn in L; lia]. apply fits_iff. pose proof (ilo_nonpos t' Hb).
+    (* an empty index pointer: -1 is only asked of a signed type; rows_of [] = [] anyway *)
+    exfalso. clear - E1. unfold m_gcxs_join in E1.
+    destruct ptrs as [|[p0 n0] r]; cbn in H0; try lia; fail.
 Qed.
 
 Theorem uncompress_refuted_proof :
